@@ -83,7 +83,7 @@ class LIProcessTomography(ProcessTomography):
         transform_matrix = np.zeros((dim**4, dim**4), dtype=complex)
         for i, (in_s, meas) in enumerate(lambdas):
             transform_matrix[i, :] = _vec(
-                np.kron(np.array(full_rhos[in_s]).conj(), full_paulis[meas])
+                np.kron(full_paulis[meas], np.array(full_rhos[in_s]).conj())
             ).conj()
         # Then find the choi matrix
         choi = np.linalg.pinv(transform_matrix) @ np.array(
